@@ -71,14 +71,23 @@ def text_line(rng):
         t = rng.choice(PROSE)
     else:
         t = gen.rand_text(rng, 70)
+    if r >= 0.88:
+        # text that contains what would start a construct at the beginning of a line (a quoted blame or grep line, a diff
+        # line cited in a commit message, ...): it does not *begin* with the marker
+        inner = rng.choice(['ea82f2d0 (Dan Davison 2020-01-02 03:04:05 +0000 7) let x = 1;', '^61f180c8 src/main.rs (Ann Lee 2021-11-12 13:14:15 -0500 120) fn main() {',
+                            'deadbeef (Ann Lee 2020-01-02 03:04:05 +0000 7)', 'diff --git a/src/x.rs b/src/x.rs', 'commit 0123456789abcdef0123456789abcdef01234567',
+                            '@@ -1,2 +1,2 @@ fn f()', 'src/main.rs:12:    let y = 2;', 'Submodule lib 1234567..89abcde:', 'Binary files a/x.png and b/x.png differ',
+                            '{"type":"match","data":{"path":{"text":"a.rs"},"lines":{"text":"x\\n"},"line_number":1,"absolute_offset":0,"submatches":[]}}',
+                            '--- a/file.txt', '+++ b/file.txt', 'rename from old/name.rs', '++<<<<<<< HEAD'])
+        t = rng.choice(['> ', '| ', '# ', 'see: ', '* ', '>> ', 'cf. ', 'as in "']) + inner
     if is_opener(t):
         t = 'x' + t
-    cls = 'plain'
+    cls = 'plain' if r < 0.88 else 'embedded-lookalike'
     if rng.random() < 0.3 and t:
         t2 = sgr_wrap(rng, t)
         if not is_opener(term.strip_escapes(t2)):
             t = t2
-            cls = 'sgr'
+            cls = 'sgr' if cls == 'plain' else cls + '-sgr'
     return t, cls
 
 
@@ -124,9 +133,9 @@ def run_item(item):
     opts, cls = options(rng)
     mll = 3000
     if rng.random() < 0.2:
-        mll = rng.choice([100, 200])
+        mll = rng.choice([100, 200, 0])       # (0: no truncation at all, whatever the view)
         opts['--max-line-length'] = mll
-        cls.append('maxlen')
+        cls.append('maxlen' if mll else 'maxlen-0')
     env = {}
     git_prefix = None
     if rng.random() < 0.15:
@@ -176,7 +185,7 @@ def run_item(item):
             in_lines.append(l.encode())
             segs.append(('text', l.encode(), 'real'))
     else:
-        layout = rng.choice(['text-only', 'text-then-diff', 'log-p', 'log-p', 'text-only'])
+        layout = rng.choice(['text-only', 'text-then-diff', 'log-p', 'log-p', 'text-only', 'log-oneline-p'])
         shape.append(layout)
 
         def add_text(n):
@@ -230,7 +239,45 @@ def run_item(item):
                           '@@ -1 +0,0 @@', '-Subproject commit ' + sha]:
                     in_lines.append(l.encode())
                 segs.append(('anchor', b'Subproject'))      # (the hash itself may be wrapped over several rows in a narrow panel)
-        if layout == 'text-only':
+        def add_hunkless_section(k):
+            # a file section without a hunk ends the diff of the commit: whatever follows it is not part of its header
+            nm = 'tail%d_%s' % (k, rng.choice(['a.rs', 'b.txt', 'img.png']))
+            which = rng.choice(['rename', 'mode', 'binary', 'empty-new', 'copy'])
+            if which == 'rename':
+                ls = ['diff --git a/old_%s b/%s' % (nm, nm), 'similarity index 100%', 'rename from old_%s' % nm, 'rename to %s' % nm]
+            elif which == 'copy':
+                ls = ['diff --git a/old_%s b/%s' % (nm, nm), 'similarity index 100%', 'copy from old_%s' % nm, 'copy to %s' % nm]
+            elif which == 'mode':
+                ls = ['diff --git a/%s b/%s' % (nm, nm), 'old mode 100644', 'new mode 100755']
+            elif which == 'binary':
+                ls = ['diff --git a/%s b/%s' % (nm, nm), 'index 1111111..2222222 100644', 'Binary files a/%s and b/%s differ' % (nm, nm)]
+            else:
+                ls = ['diff --git a/%s b/%s' % (nm, nm), 'new file mode 100644', 'index 0000000..e69de29']
+            for l in ls:
+                in_lines.append(l.encode())
+            segs.append(('anchor', nm.encode()))
+            shape.append('hunkless-tail:' + which)
+
+        if layout == 'log-oneline-p':
+            # git log --oneline -p (or any --format without a blank line): 'hash subject' directly followed by the diff, the
+            # next 'hash subject' directly after the last line of that diff
+            for k in range(rng.randint(2, 4)):
+                subj = ('%07x ' % rng.randrange(1 << 28)) + rng.choice(PROSE)[:50]
+                if is_opener(subj):
+                    subj = 'x' + subj
+                in_lines.append(subj.encode())
+                segs.append(('text', subj.encode(), 'oneline-subject'))
+                add_diff(k)
+                if rng.random() < 0.6:
+                    add_hunkless_section(k)
+            # (what follows a diff directly is only told from its lines by how it begins: a line starting with a blank, '+',
+            # '-' or '\\' after a hunk, a blank or header-like line after a section without hunks *are* lines of that diff for
+            # any reader. The lines that close this stream are of the unambiguous kind again.)
+            for _ in range(rng.randint(0, 2)):
+                subj = ('%07x ' % rng.randrange(1 << 28)) + rng.choice(PROSE)[:50]
+                in_lines.append(subj.encode())
+                segs.append(('text', subj.encode(), 'oneline-subject'))
+        elif layout == 'text-only':
             add_text(rng.randint(1, 25))
         elif layout == 'text-then-diff':
             add_text(rng.randint(1, 12))
@@ -246,7 +293,15 @@ def run_item(item):
                 add_text(rng.randint(1, 8))
                 add_diff(k)
     data = b'\n'.join(in_lines) + b'\n'
-    res = runner.run_delta(gen.to_args(opts), data, env=env)
+    pkw = {}
+    r5 = engine.item_rng(engine.stable_hash((seed, 'c04-parent')))
+    if kind != 'real' and r5.random() < 0.2:
+        # the git command whose pager delta is: revisions may be written with colons that do not separate a revision from
+        # a path (git show ':/fix typo' names a commit by its message) - the output is a commit all the same
+        pkw['parent_argv'] = r5.choice([['git', 'show', ':/fix typo'], ['git', 'show', 'HEAD@{2020-01-01 10:00:00}'], ['git', 'show', 'HEAD^{/fix: the parser}'],
+                                        ['git', 'log', '-p'], ['git', 'show', '--format=%s', ':/second'], ['git', 'show', 'main@{1 week ago 10:30}']])
+        cls.append('parent:' + ' '.join(pkw['parent_argv'][1:3]))
+    res = runner.run_delta(gen.to_args(opts), data, env=env, **pkw)
     c = crash_outcome(res, ID)
     if c is not None:
         return c
@@ -351,7 +406,7 @@ def expected_bytes(b, cl, mll):
 def matches(out_line, exp, b, cl, mll):
     if out_line == exp:
         return True
-    if len(exp) > mll:
+    if mll and len(exp) > mll:
         # truncation beyond the maximum line length is permitted: visible prefix + mark
         vis_o = term.strip_escapes(out_line.decode('utf-8', 'replace')).rstrip()
         vis_e = term.strip_escapes(exp.decode('utf-8', 'replace'))
@@ -361,9 +416,9 @@ def matches(out_line, exp, b, cl, mll):
         # lossy replacement may merge or split replacement characters differently from Python's decoder
         a = out_line.decode('utf-8', 'replace').replace('�', '')
         bb = exp.decode('utf-8', 'replace').replace('�', '')
-        if a == bb and len(exp) <= mll:
+        if a == bb and (not mll or len(exp) <= mll):
             return True
-        if len(exp) > mll:
+        if mll and len(exp) > mll:
             return False
     return False
 
